@@ -835,8 +835,10 @@ func (in *Interp) lookup(fr *frame, x *ssa.Lookup) Value {
 		found := false
 		if v.H != 0 {
 			m := in.mapObj(v.H, false)
-			ks := in.keyString(key)
-			val, found = m.vals[ks]
+			ks, ok := in.mapKey(m, key)
+			if ok {
+				val, found = m.vals[ks]
+			}
 		}
 		if !found {
 			val = in.zero(mt.Elem())
@@ -911,12 +913,90 @@ func (in *Interp) keyString(k Value) string {
 	return ""
 }
 
+// isConcreteKey reports whether a map key has a canonical string form.
+func isConcreteKey(in *Interp, k Value) bool {
+	switch x := k.(type) {
+	case *Term:
+		return x.IsConst()
+	case StrV:
+		_, ok := in.goString(x)
+		return ok
+	case *IfaceV:
+		if x == nil || x.T == nil {
+			return true
+		}
+		return isConcreteKey(in, x.V)
+	case *StructV:
+		for _, f := range x.F {
+			if !isConcreteKey(in, f) {
+				return false
+			}
+		}
+	case *ArrayV:
+		for _, f := range x.E {
+			if !isConcreteKey(in, f) {
+				return false
+			}
+		}
+	}
+	return true
+}
+
+// mapKey finds the canonical key string under which k is (or would be) stored.
+// A key with symbolic content is compared with the stored keys one by one,
+// forking on each undecided equality; a key equal to none of them gets a fresh
+// name. found reports whether an entry exists.
+func (in *Interp) mapKey(o *MapObj, k Value) (ks string, found bool) {
+	conc := isConcreteKey(in, k)
+	if conc && !o.hasSym {
+		ks = in.keyString(k)
+		_, found = o.vals[ks]
+		return ks, found
+	}
+	if conc {
+		ks = in.keyString(k)
+		if _, ok := o.vals[ks]; ok {
+			return ks, true
+		}
+	}
+	if o.kt == nil {
+		in.fail("symbolic key in an untyped map model")
+	}
+	for _, s := range o.keys {
+		kv, ok := o.kvals[s]
+		if !ok {
+			continue
+		}
+		if conc && isConcreteKey(in, kv) {
+			continue // two different concrete keys
+		}
+		eq := in.equal(o.kt, k, kv)
+		if eq.IsConst() {
+			if eq.val != 0 {
+				return s, true
+			}
+			continue
+		}
+		if in.branch(eq) {
+			return s, true
+		}
+	}
+	if conc {
+		return ks, false
+	}
+	in.symKeySeq++
+	return fmt.Sprintf("sym#%d", in.symKeySeq), false
+}
+
 func (in *Interp) mapUpdate(m MapV, k, v Value) {
 	if m.H == 0 {
 		in.gopanic("assignment to entry in nil map")
 	}
 	o := in.mapObj(m.H, true)
-	ks := in.keyString(k)
+	ks, _ := in.mapKey(o, k)
+	if !isConcreteKey(in, k) {
+		o.hasSym = true
+	}
 	if _, ok := o.vals[ks]; !ok {
 		o.keys = append(o.keys, ks)
 		o.kvals[ks] = k
@@ -929,7 +1009,7 @@ func (in *Interp) mapDelete(m MapV, k Value) {
 		return
 	}
 	o := in.mapObj(m.H, true)
-	ks := in.keyString(k)
+	ks, _ := in.mapKey(o, k)
 	if _, ok := o.vals[ks]; ok {
 		delete(o.vals, ks)
 		delete(o.kvals, ks)
